@@ -13,7 +13,9 @@ RULE = ("op sequences (put, pin, add, get, getFirst, getLast, pop, rem, rem(val)
         "Suber / IoSuber / IoSetSuber over key universes of 2-5 keys drawn from families with prefix-related keys "
         "('a','ab','abc',''), keys containing the ion separator '.', the tuple separator '_', 32-hex-digit tails, "
         "and tuple keys; in 30% of the cases SEVERAL stores of one environment are driven in one history with the same "
-        "key set (the plain / io / ioset subers of a Duror, or the cans / drqs / dsqs Dom subers of a real Subery with "
+        "key set; 12% of the io / ioset ops on independent key sets are pin / put whose VALUE ARGUMENT IS LAZY (a generator "
+        "over get / getIter of the same key = in-place rewrite, over another key, one that raises part way, or with a "
+        "member the Dom suber cannot serialise): evaluated before any effect, no effect when it raises; stores: (the plain / io / ioset subers of a Duror, or the cans / drqs / dsqs Dom subers of a real Subery with "
         "Bag(value=str) values), each against its own dictionary; values from a small domain with duplicates and the empty value; keys passed as str, bytes, "
         "memoryview or tuple; a separate malformed stream uses empty / over-long keys on the plain store; a case is "
         "non-trivial when it uses >= 2 keys of which one is a prefix of another or contains a separator, and has "
@@ -97,6 +99,20 @@ def directed():
             _op("pop", a, "io"), _op("remval", ab, "y", "ioset"), _op("get", ab, "ioset"), _op("get", ab, "io"),
             _op("add", ["a.b"], "v", "io"), _op("add", ["a.b"], "v", "ioset"), _op("pop", ["a.b"], "ioset"), _op("get", ["a.b"], "io"),
             _op("rem", a, "plain"), _op("get", a, "io"), _op("cnt", a, "plain"), _op("cnt", a, "io")]})
+    # lazy value arguments: a generator over the SAME key's content (in-place rewrite), over another key, one that raises
+    # part way, (Dom subers) a member that cannot be serialised: evaluated before any effect / no effect when it raises
+    for kind in ("io", "ioset"):
+        out.append({"kind": kind, "ops": [
+            _op("put", a, ["v", "w", "v"]), _op("pinself", a, "+"), _op("get", a), _op("pinself", a, ""), _op("cnt", a),
+            _op("putself", a, "'"), _op("get", a), _op("add", ab, "x"), _op("pinfrom", ab, "!", a), _op("get", ab), _op("get", a),
+            _op("putfrom", a, "?", ab), _op("get", a), _op("pinraise", a, ["p", "q"], 1), _op("get", a), _op("pinraise", a, ["p"], 0),
+            _op("putraise", ab, ["p", "q", "r"], 2), _op("get", ab), _op("pinraise", a, ["p", "q"], 2), _op("get", a),
+            _op("pinself", b, "z"), _op("get", b), _op("pinself", a, "+"), _op("getlast", a), _op("pop", a)]})
+    for kd in ("io", "ioset"):
+        out.append({"kind": "multi", "env": "subery", "ops": [
+            _op("put", a, ["v", "w"], kd), _op("pinbad", a, ["p", "q"], 1, kd), _op("get", a, kd), _op("putbad", a, ["p"], 1, kd),
+            _op("get", a, kd), _op("pinbad", a, ["p", "q"], 0, kd), _op("pinself", a, "+", kd), _op("get", a, kd),
+            _op("pinraise", a, ["x"], 1, kd), _op("get", a, kd), _op("pinfrom", ab, "", a, kd), _op("get", ab, kd)]})
     # keys K and K' = K + '.' + rest where rest does not look like an ordinal: only getLast(K) is affected by D27;
     # add / put / pin / get / pop / rem / cnt on K and K' must still behave as the dictionary
     for kind in ("io", "ioset"):
@@ -121,15 +137,32 @@ def _gen_multi(rng, fams, nops):
     keys = rng.sample(fam, rng.randint(2, len(fam)))
     vals = rng.sample(VALS, rng.randint(2, 5))
     stores = rng.choice([["io", "ioset"], ["io", "ioset"], ["plain", "io", "ioset"], ["plain", "io"], ["plain", "ioset"]])
+    envname = rng.choice(["subery", "subery", "duror"])
     ops = []
     for _ in range(nops):
         kd = rng.choice(stores)
-        o = _gen_case(rng, [keys], kd, 1, keys=keys, vals=vals)["ops"][0]
+        o = _gen_case(rng, [keys], kd, 1, keys=keys, vals=vals, lazy=fams is INDEP_FAMILIES, dom=envname == "subery")["ops"][0]
         ops.append(o + [kd])
-    return {"kind": "multi", "env": rng.choice(["subery", "subery", "duror"]), "ops": ops}
+    return {"kind": "multi", "env": envname, "ops": ops}
 
 
-def _gen_case(rng, fams, kind, nops, keys=None, vals=None):
+def _gen_lazy(rng, kind, keys, vals, dom):
+    """pin / put with a lazy value argument"""
+    k = rng.choice(keys)
+    which = rng.choice(["pin", "put"])
+    r = rng.random()
+    sfx = rng.choice(["", "+", "'", "v"])
+    if r < 0.45:
+        return _op(which + "self", k, sfx)
+    if r < 0.65:
+        return _op(which + "from", k, sfx, rng.choice(keys))
+    vs = [rng.choice(vals) for _ in range(rng.choice([1, 2, 3]))]
+    if r < 0.85 or not dom:
+        return _op(which + "raise", k, vs, rng.randrange(len(vs) + 1))
+    return _op(which + "bad", k, vs, rng.randrange(len(vs) + 1))
+
+
+def _gen_case(rng, fams, kind, nops, keys=None, vals=None, lazy=False, dom=False):
     fam = rng.choice(fams)
     keys = keys or rng.sample(fam, rng.randint(2, len(fam)))
     vals = vals or rng.sample(VALS, rng.randint(2, 5))
@@ -142,6 +175,9 @@ def _gen_case(rng, fams, kind, nops, keys=None, vals=None):
         names, w = (["add", "put", "pin", "get", "getfirst", "getlast", "pop", "rem", "remval", "cnt"],
                     [6, 3, 1.5, 4, 2, 3, 3, 1, 3, 2])
     for _ in range(nops):
+        if lazy and kind != "plain" and rng.random() < 0.12:
+            ops.append(_gen_lazy(rng, kind, keys, vals, dom))
+            continue
         n = rng.choices(names, w)[0]
         k = rng.choice(keys)
         if kind == "plain" and k == [""]:
@@ -167,7 +203,7 @@ def generate(rng, tier):
         if rng.random() < 0.3:
             out.append(_gen_multi(rng, fams, rng.choice([6, 10, 16, 24])))
         else:
-            out.append(_gen_case(rng, fams, kind, rng.choice([4, 8, 12, 20, 30])))
+            out.append(_gen_case(rng, fams, kind, rng.choice([4, 8, 12, 20, 30]), lazy=fams is INDEP_FAMILIES))
     # malformed stream: empty / over-long keys on the plain store
     for i in range(20 if tier == "quick" else 200):
         ops = []
@@ -248,11 +284,23 @@ class _Dom:
     def __init__(self, st):
         self.st = st
 
+    @staticmethod
+    def _in(v):
+        if isinstance(v, str):
+            return _bagval(v, 0)
+        if isinstance(v, list):
+            return [x if isinstance(x, _Unser) else _bagval(x, 0) for x in v]
+        return (x if isinstance(x, _Unser) else _bagval(x, 0) for x in v)      # stays lazy
+
     def put(self, k, v):
-        return self.st.put(k, [_bagval(x, 0) for x in v] if isinstance(v, list) else _bagval(v, 0))
+        return self.st.put(k, self._in(v))
 
     def pin(self, k, v):
-        return self.st.pin(k, [_bagval(x, 0) for x in v] if isinstance(v, list) else _bagval(v, 0))
+        return self.st.pin(k, self._in(v))
+
+    def getIter(self, k):
+        for x in self.st.getIter(k):
+            yield _unbag(x)
 
     def add(self, k, v):
         return self.st.add(k, _bagval(v, 0))
@@ -284,8 +332,45 @@ def _ident(v, i):
     return v
 
 
+class _Boom(ValueError):
+    pass
+
+
+def _lazy(st, o, k, i):
+    """pin / put whose value argument is a lazy iterable (a generator)"""
+    name = o[0]
+    call = st.pin if name.startswith("pin") else st.put
+    if name in ("pinself", "putself", "pinfrom", "putfrom"):
+        src = k if name.endswith("self") else _pykey(o[3], i + 1)
+        reader = st.getIter if i % 2 else st.get
+
+        def content():                                    # reads the store only when it is consumed
+            for v in reader(src):
+                yield v + o[2]
+        return ["bool", bool(call(k, content()))]
+    if name in ("pinraise", "putraise"):
+        def gen():
+            for j, v in enumerate(o[2]):
+                if j == o[3]:
+                    raise _Boom("value source failed")
+                yield v
+            raise _Boom("value source failed")
+        return ["bool", bool(call(k, gen()))]
+    if name in ("pinbad", "putbad"):                       # a member that cannot be serialised (Dom subers: not a RegDom)
+        vals = list(o[2])
+        vals.insert(min(o[3], len(vals)), _Unser())
+        return ["bool", bool(call(k, iter(vals) if i % 2 else vals))]
+    raise ValueError(name)
+
+
+class _Unser:
+    """stands for a value the Dom suber cannot serialise"""
+
+
 def _apply_raw(st, kind, i, o, k, _pyval):
     name = o[0]
+    if name in LAZY:
+        return _lazy(st, o, k, i)
     if name == "put":
         return ["bool", bool(st.put(k, _pyval(o[2][0], i)) if kind == "plain" else st.put(k, [_pyval(v, i + j) for j, v in enumerate(o[2])]))]
     if name == "pin":
@@ -345,9 +430,10 @@ def _keys_of(case):
     """(store, key) pairs of the case, in order of first use"""
     seen, out = set(), []
     for o in case["ops"]:
-        t = (_store_of(case, o), tuple(o[1]))
-        if t not in seen:
-            seen.add(t); out.append((t[0], list(o[1])))
+        for key in [o[1]] + ([o[3]] if o[0] in ("pinfrom", "putfrom") else []):
+            t = (_store_of(case, o), tuple(key))
+            if t not in seen:
+                seen.add(t); out.append((t[0], list(key)))
     return out
 
 
@@ -415,6 +501,33 @@ def _spec_step(kind, s, o, dom=False):
     raise ValueError(name)
 
 
+LAZY = ("pinself", "putself", "pinfrom", "putfrom", "pinraise", "putraise", "pinbad", "putbad")
+
+
+def _resolve(case):
+    """The ops with lazy value arguments made explicit, as (store, op) pairs.  An argument is evaluated BEFORE the call
+    has any effect, so  pin(k, (v + sfx for v in getIter(k2)))  is  pin(k, [v + sfx for v in <content of k2 before the
+    call>]),  and an argument that raises while consumed is a call without effect that raises."""
+    dom = case.get("env", "duror") == "subery"
+    dicts = {kd: {} for kd in KINDS}
+    out = []
+    for o in case["ops"]:
+        kd, o2 = _store_of(case, o), list(_op_of(case, o))
+        name = o2[0]
+        if name in ("pinself", "putself", "pinfrom", "putfrom"):
+            src = o2[1] if name.endswith("self") else o2[3]
+            vals = [v + o2[2] for v in dicts[kd].get(tuple(src), [])]
+            o2 = [name[:3], o2[1], vals]
+        elif name in ("pinraise", "putraise"):
+            o2 = ["raise", o2[1], "ValueErr"]
+        elif name in ("pinbad", "putbad"):
+            o2 = ["raise", o2[1], "HierErr"]
+        if o2[0] != "raise":
+            _spec_step(kd, dicts[kd], o2, dom)
+        out.append((kd, o2))
+    return out
+
+
 def oracle(case, obs):
     f = _first_failure(case, obs)
     return None if f is None else f[3]
@@ -425,9 +538,9 @@ def _first_failure(case, obs):
     dom = case.get("env", "duror") == "subery"
     dicts = {kd: {} for kd in KINDS}        # one independent dictionary per store of the environment
     what = {"plain": "values", "io": "lists", "ioset": "ordered sets"}
-    for i, o in enumerate(case["ops"]):
-        kd = _store_of(case, o)
-        want = _spec_step(kd, dicts[kd], _op_of(case, o), dom)
+    for i, (o, (kd, o2)) in enumerate(zip(case["ops"], _resolve(case))):
+        # an argument that raises leaves the store unchanged and the call raises; everything else is the plain op
+        want = ["exc", o2[2]] if o2[0] == "raise" else _spec_step(kd, dicts[kd], o2, dom)
         got = obs["results"][i]
         if want != got:
             return (("op", i), kd, list(o[1]),
@@ -500,6 +613,8 @@ def _coq_op(o):
         return f"(IoSub.OAdd {k} {_b(o[2])})"
     if name == "remval":
         return f"(IoSub.ORemVal {k} {_b(o[2])})"
+    if name == "raise":
+        return f"(IoSub.ORaise {k} {o[2]})"
     c = {"get": "OGet", "getfirst": "OGetFirst", "getlast": "OGetLast", "pop": "OPop", "rem": "ORem", "cnt": "OCnt"}[name]
     return f"(IoSub.{c} {k})"
 
@@ -520,13 +635,13 @@ def to_coq(case, obs):
     w = (lambda v: None if v is None else _wrap(v)) if dom else (lambda v: v)
     kinds = {"plain": "IoSub.Plain", "io": "IoSub.Io", "ioset": "IoSub.IoSet"}
     ops = []
-    for o in case["ops"]:
-        o2 = list(_op_of(case, o))
+    for kd, o2 in _resolve(case):
+        o2 = list(o2)
         if o2[0] in ("put", "pin"):
             o2[2] = [w(v) for v in o2[2]]
         elif o2[0] in ("add", "remval"):
             o2[2] = w(o2[2])
-        ops.append(f"({kinds[_store_of(case, o)]}, {_coq_op(o2)})")
+        ops.append(f"({kinds[kd]}, {_coq_op(o2)})")
     res = []
     for r in obs["results"]:
         if r[0] != "ok":
